@@ -5,6 +5,7 @@ import (
 	"strings"
 
 	biscuit "github.com/biscuit-auth/biscuit-go/v2"
+	"github.com/biscuit-auth/biscuit-go/v2/datalog"
 
 	"verif/internal/hx"
 	"verif/internal/refdl"
@@ -139,4 +140,99 @@ func itemTriples(items []item) [][]item {
 		}
 	}
 	return out
+}
+
+// c07SequentialSpace: the lower-level route - NewBlockBuilder over a table the caller owns, biscuit.New with
+// that table. Builder A is created, filled and built; only then is builder B created over the same table and
+// filled and built; the tokens are signed afterwards, in either order. Each token must carry
+// what its own builder received.
+func c07SequentialSpace() *sup.Space {
+	kids := []refdl.Block{
+		{Facts: []refdl.Atom{atom("label", rx.Str("draft"), rx.Str("final"))}},
+		{Facts: []refdl.Atom{atom("label", rx.Str("final"), rx.Str("other"))}, Checks: []refdl.Check{chk(q(atom("label", vx, rx.Str("final"))))}},
+		{Rules: []refdl.Rule{rule(atom("draft", vx), atom("owner", vx, vy))}},
+		{Facts: []refdl.Atom{atom("owner", rx.Str("f1"), rx.Str("f2")), atom("quota", rx.Str("f3"), rx.Int(10))}},
+	}
+	nk := int64(len(kids))
+	size := nk * nk * 2 * 2
+	return &sup.Space{Name: "sequential-builders-over-one-base-table", Size: func(*sup.Ctx) int64 { return size }, Run: func(i int64, w *sup.W) {
+		spare := i%2 == 1
+		i /= 2
+		// B is always built before anything is signed: signing A while B is still open over the same table
+		// hands New a table that is not the one A was built over - the caller's mistake, not the library's
+		// (on the unchanged tree the token then prints differently in memory and after a reload)
+		bBuilt := true
+		bFirst := i%2 == 1
+		i /= 2
+		kb := [2]refdl.Block{kids[i%nk], kids[i/nk]}
+		_, priv := hx.Keys(1)
+		base := &datalog.SymbolTable{}
+		if spare {
+			t := make(datalog.SymbolTable, 0, 16)
+			base = &t
+		}
+		human := fmt.Sprintf("base table (spare capacity: %v); A=NewBlockBuilder(base), fill %s, Build; B=NewBlockBuilder(base), fill %s, built=%v; New(base, A) and New(base, B), B first=%v", spare, kb[0], kb[1], bBuilt, bFirst)
+		var toks [2]*biscuit.Biscuit
+		var err error
+		if r, stack := sup.Catch(func() {
+			bA := biscuit.NewBlockBuilder(base)
+			if err = hx.FillBlock(bA, kb[0]); err != nil {
+				return
+			}
+			blkA := bA.Build()
+			bB := biscuit.NewBlockBuilder(base)
+			if err = hx.FillBlock(bB, kb[1]); err != nil {
+				return
+			}
+			var blkB *biscuit.Block
+			if bBuilt {
+				blkB = bB.Build()
+			}
+			sign := func(k int) {
+				if err != nil {
+					return
+				}
+				switch {
+				case k == 0:
+					toks[0], err = biscuit.New(hx.NewRNG(21), priv, base, blkA)
+				case blkB != nil:
+					toks[1], err = biscuit.New(hx.NewRNG(22), priv, base, blkB)
+				}
+			}
+			if bFirst {
+				sign(1)
+				sign(0)
+			} else {
+				sign(0)
+				sign(1)
+			}
+		}); r != nil {
+			w.Class("panic")
+			w.Violate("C07:panic-while-building:"+sup.PanicSig(stack), human, fmt.Sprint(r), "tokens or an error")
+			return
+		}
+		w.Stats().Transitions += 6
+		if err != nil {
+			if !bBuilt {
+				// signing A while B is still open over the same table may be refused (the table is not the one A was built over)
+				w.Class("refused-while-another-builder-is-open")
+				w.NontrivialByIndex()
+				return
+			}
+			w.Class("build-error")
+			w.Violate("C07:build-failed", human, err.Error(), "tokens")
+			return
+		}
+		for k, t := range toks {
+			if t == nil {
+				continue
+			}
+			w.Stats().States++
+			if !c07CheckToken(w, t, []refdl.Block{kb[k]}, nil, fmt.Sprintf("%s; token %c", human, 'A'+k)) {
+				return
+			}
+		}
+		w.Class("faithful")
+		w.NontrivialByIndex()
+	}}
 }
